@@ -176,7 +176,7 @@ def r02_2(ctx, rep, roles, app):
     reset = roles.reset_node["id"]
     n = 0
     for row in app.rows:
-        called = [e for e in row.calls() if e[1] == reset]
+        called = roles.reset_events(row, models.RECV)
         if not called:
             continue
         n += 1
